@@ -283,6 +283,7 @@ def run_group(g, trace=False, workroot=None):
         res.extraction = build_group(g, workdir)
     except X.ExtractionError as e:
         res.reason = 'extraction: %s' % e
+        res.loop_mismatch = True      # the code left the extractable subset: no proof; let the native oracle (if any) look for a failing input
         res.wall = time.time() - t0
         return res
     if g.loops:
@@ -397,6 +398,14 @@ def run_group(g, trace=False, workroot=None):
         real = [o for o in bad if o['status'] == 'FAILURE']
         unw = [o for o in real if '.unwind.' in o['name'] or 'unwinding assertion' in o['desc']]
         if unw:
+            others = [o for o in real if o not in unw]
+            if others:
+                # the bound only limits what was explored: an assertion that fails on an explored path is a real counterexample
+                # (--unwinding-assertions cuts the paths beyond the bound, it does not invent any); the passes of this run prove nothing
+                res.failed = others
+                res.status = 'FAILED'
+                res.reason = 'failed within the unwinding bound (the bound itself was too small: %s)' % unw[0]['name']
+                return res
             res.failed = unw
             res.status = 'UNDECIDED'
             res.reason = 'unwinding bound too small: %s (%s)' % (unw[0]['name'], unw[0]['desc'])
